@@ -6,6 +6,9 @@ import (
 	"bytes"
 	"fmt"
 	"math"
+	"reflect"
+	"sync/atomic"
+	"unsafe"
 	"sort"
 	"strconv"
 	"strings"
@@ -54,6 +57,38 @@ type vSpelling struct {
 	tag map[string]string
 	opt map[string]string // whole option strings
 	sep []string          // separators between words of a command
+	dup bool              // `route add` spells its tag list with the first tag repeated at the end (legal; Consul does not de-duplicate service tags)
+}
+
+// addTags is the tag list of a `route add` command in this spelling.
+func (sp *vSpelling) addTags(ts []string) []string {
+	out := sp.tags(ts)
+	if sp != nil && sp.dup && len(out) > 0 {
+		out = append(out, out[0])
+	}
+	return out
+}
+
+func tagSet(ts []string) map[string]bool {
+	m := map[string]bool{}
+	for _, t := range ts {
+		m[t] = true
+	}
+	return m
+}
+
+// eqTagSets compares two tag lists as sets.
+func eqTagSets(a, b []string) bool {
+	x, y := tagSet(a), tagSet(b)
+	if len(x) != len(y) {
+		return false
+	}
+	for k := range x {
+		if !y[k] {
+			return false
+		}
+	}
+	return true
 }
 
 func (sp *vSpelling) optOf(o string) string {
@@ -114,7 +149,11 @@ func cmdText(c vCmd, sp *vSpelling, k int) string {
 	tags := func() {
 		if len(c.Tags) > 0 {
 			w("tags")
-			w(`"` + strings.Join(sp.tags(c.Tags), ",") + `"`)
+			if c.Op == "add" {
+				w(`"` + strings.Join(sp.addTags(c.Tags), ",") + `"`)
+			} else {
+				w(`"` + strings.Join(sp.tags(c.Tags), ",") + `"`)
+			}
 		}
 	}
 	switch c.Op {
@@ -176,6 +215,7 @@ func cmdDef(c vCmd, sp *vSpelling) RouteDef {
 	switch c.Op {
 	case "add":
 		d.Cmd = RouteAddCmd
+		d.Tags = sp.addTags(c.Tags)
 	case "del":
 		d.Cmd = RouteDelCmd
 	case "weight":
@@ -287,7 +327,12 @@ func diffTable(got map[string][]pTarget, want vTable, sp *vSpelling, effective b
 			if g.Svc != w.Svc || g.Dst != w.Dst {
 				return "target-identity", fmt.Sprintf("route %q target %d is %s %s, want %s %s", k, i, g.Svc, g.Dst, w.Svc, w.Dst)
 			}
-			if !eqTags(g.Tags, sp.tags(w.Tags)) {
+			if sp != nil && sp.dup {
+				// repeated tags: whether the table keeps the repetition is not stated; as sets they must agree
+				if !eqTagSets(g.Tags, sp.tags(w.Tags)) {
+					return "target-tags", fmt.Sprintf("route %q target %d tags %q, want the set %q", k, i, g.Tags, sp.tags(w.Tags))
+				}
+			} else if !eqTags(g.Tags, sp.tags(w.Tags)) {
 				return "target-tags", fmt.Sprintf("route %q target %d tags %q, want %q", k, i, g.Tags, sp.tags(w.Tags))
 			}
 			wantOpts := optsMap(sp.optOf(w.Opts))
@@ -315,4 +360,46 @@ func diffTable(got map[string][]pTarget, want vTable, sp *vSpelling, effective b
 
 func newTableFromText(s string) (Table, error) {
 	return NewTable(bytes.NewBufferString(s))
+}
+
+// vCursorField finds the round-robin counter of a route (field "total") whatever unsigned integer type it has.
+func vCursorField(r *Route) (p unsafe.Pointer, bits int) {
+	f := reflect.ValueOf(r).Elem().FieldByName("total")
+	if !f.IsValid() || !f.CanAddr() {
+		return nil, 0
+	}
+	switch f.Kind() {
+	case reflect.Uint64:
+		return unsafe.Pointer(f.UnsafeAddr()), 64
+	case reflect.Uint32:
+		return unsafe.Pointer(f.UnsafeAddr()), 32
+	}
+	return nil, 0
+}
+
+// vCursorGet reads the counter (0 when it cannot be found).
+func vCursorGet(r *Route) uint64 {
+	switch p, bits := vCursorField(r); bits {
+	case 64:
+		return atomic.LoadUint64((*uint64)(p))
+	case 32:
+		return uint64(atomic.LoadUint32((*uint32)(p)))
+	}
+	return 0
+}
+
+// vCursorSet positions the counter at v; false when the field is missing or cannot hold v.
+func vCursorSet(r *Route, v uint64) bool {
+	switch p, bits := vCursorField(r); bits {
+	case 64:
+		atomic.StoreUint64((*uint64)(p), v)
+		return true
+	case 32:
+		if v>>32 != 0 {
+			return false
+		}
+		atomic.StoreUint32((*uint32)(p), uint32(v))
+		return true
+	}
+	return false
 }
